@@ -567,11 +567,17 @@ pub struct LimitsOracle {
     pending_now: u64,
     tracked_now: u64,
     closed_since: BTreeMap<(usize, SocketAddr), u64>,
+    /// pending handshakes by (server, address, server nonce): when first seen
+    pending_since: BTreeMap<(usize, SocketAddr, u32), u64>,
+    /// client addresses whose endpoint object is gone: since when
+    vanished_at: BTreeMap<SocketAddr, u64>,
+    /// last datagram that reached a server's socket from an address
+    last_heard: BTreeMap<(usize, SocketAddr), u64>,
 }
 
 impl LimitsOracle {
     pub fn new(property: &'static str) -> Self {
-        Self { property, active: BTreeSet::new(), max_active_seen: 0, max_total_seen: 0, checks: 0, refusals: 0, server_full_events: BTreeSet::new(), client_connects: BTreeSet::new(), client_errors: BTreeMap::new(), ended: 0, overlapping_syns: 0, pending_now: 0, tracked_now: 0, closed_since: BTreeMap::new() }
+        Self { property, active: BTreeSet::new(), max_active_seen: 0, max_total_seen: 0, checks: 0, refusals: 0, server_full_events: BTreeSet::new(), client_connects: BTreeSet::new(), client_errors: BTreeMap::new(), ended: 0, overlapping_syns: 0, pending_now: 0, tracked_now: 0, closed_since: BTreeMap::new(), pending_since: BTreeMap::new(), vanished_at: BTreeMap::new(), last_heard: BTreeMap::new() }
     }
 }
 
@@ -633,7 +639,43 @@ impl Oracle for LimitsOracle {
                 }
                 _ => (),
             },
+            Rec::Call { op: Op::Destroy { ep }, skipped: false, .. } if matches!(cx.plan.endpoints[*ep].kind, EndpointKind::Client { .. }) => {
+                self.vanished_at.insert(cx.addrs[*ep], cx.now_ns);
+            }
+            Rec::Call { op: Op::Create { ep }, skipped: false, .. } if matches!(cx.plan.endpoints[*ep].kind, EndpointKind::Client { .. }) => {
+                self.vanished_at.remove(&cx.addrs[*ep]);
+            }
+            Rec::Delivered { dst, src_addr, accepted: true, .. } if matches!(cx.plan.endpoints[*dst].kind, EndpointKind::Server { .. }) => {
+                self.last_heard.insert((*dst, *src_addr), cx.now_ns);
+            }
             Rec::Probe { call, ep, probe: Probe::Server(s), .. } => {
+                if let EndpointKind::Server { cfg, .. } = &cx.plan.endpoints[*ep].kind {
+                    // an unacknowledged handshake is given up after its ten retransmissions
+                    // (22 s on the server's clock, which may run 2 % fast or slow)
+                    let mut seen = BTreeSet::new();
+                    for c in s.clients.iter().filter(|c| c.state == 0) {
+                        if let Some(n) = c.local_nonce {
+                            let key = (*ep, c.address, n);
+                            seen.insert(key);
+                            let t0 = *self.pending_since.entry(key).or_insert(cx.now_ns);
+                            if cx.now_ns > t0 + 24_000_000_000 {
+                                return viol(prop, "pending_entry_lingers", format!("server {} still tracks the unacknowledged handshake of {} (server nonce {:08x}) {:.1} s after it began (ten retransmissions, 22 s)", ep, c.address, n, (cx.now_ns - t0) as f64 / 1e9), *call);
+                            }
+                        }
+                    }
+                    self.pending_since.retain(|k, _| k.0 != *ep || seen.contains(k));
+                    // a client that is gone is timed out once the silence timeout has passed since
+                    // the last datagram from its address reached the server
+                    for c in s.clients.iter().filter(|c| c.state == 1) {
+                        if let Some(gone) = self.vanished_at.get(&c.address) {
+                            let since = (*gone).max(self.last_heard.get(&(*ep, c.address)).cloned().unwrap_or(0));
+                            let limit = cfg.active_timeout_ms * 1_030_000 + 2_000_000_000;
+                            if cx.now_ns > since + limit {
+                                return viol(prop, "vanished_client_still_active", format!("server {} still holds an established connection for {} although that client vanished and nothing from its address has reached the server for {:.1} s (silence timeout {} ms): the slot is not given back", ep, c.address, (cx.now_ns - since) as f64 / 1e9, cfg.active_timeout_ms), *call);
+                            }
+                        }
+                    }
+                }
                 if let EndpointKind::Server { max_total, .. } = &cx.plan.endpoints[*ep].kind {
                     self.checks += 1;
                     self.max_total_seen = self.max_total_seen.max(s.clients_len as u64);
